@@ -207,6 +207,41 @@ def npSplit {α : Type} (l : List α) (limits : List Int) : List (List α) :=
     | i :: rest => pySlice l (some prev) (some i) :: go i rest
   go 0 limits
 
+/-- `np.any(b)` of a boolean 2-d array -/
+def npAny2 (m : List (List Bool)) : Bool := m.any (fun r => r.any id)
+
+/-- `np.empty_like(m)` / `np.zeros_like(m)` of a 2-d array, filled with `x` (the value of uninitialised memory is never read
+in translated code that is proved to overwrite it) -/
+def npFullLike2 {α β : Type} (m : List (List α)) (x : β) : List (List β) := m.map (fun r => r.map (fun _ => x))
+
+/-- `v[idx]` for an integer index array (fancy read, python index rules) -/
+def npTake {α : Type} (v : List α) (idx : List Int) : Py (List α) := idx.mapM (fun i => pyGet v i)
+
+/-- `np.cumsum(v)` -/
+def npCumsum (v : List Rat) : List Rat :=
+  (v.foldl (fun (acc : List Rat × Rat) x => (acc.1 ++ [acc.2 + x], acc.2 + x)) ([], 0)).1
+
+/-- `np.count_nonzero(v)` -/
+def npCountNonzero (v : List Rat) : Int := ((v.filter (fun x => x != 0)).length : Int)
+
+/-- `v[::-1]` -/
+def npReverse {α : Type} (v : List α) : List α := v.reverse
+
+/-- `m[i] = row` : row assignment; the row must have the row length of `m` (`ValueError` otherwise) -/
+def npSetRow {α : Type} (m : List (List α)) (i : Int) (row : List α) : Py (List (List α)) := do
+  let old ← pyGet m i
+  if old.length = row.length then pySet m i row else .error .value
+
+/-- `m[i, lo:] = x` : constant assignment to the tail of row `i` (slice bounds clamp like Python) -/
+def npSetRowFrom {α : Type} (m : List (List α)) (i lo : Int) (x : α) : Py (List (List α)) := do
+  let old ← pyGet m i
+  let a := pyBound old.length lo
+  pySet m i (old.take a ++ (old.drop a).map (fun _ => x))
+
+/-- `m[:, j] = x` : constant assignment to column `j` (`IndexError` if `j` is out of range for the rows) -/
+def npSetCol {α : Type} (m : List (List α)) (j : Int) (x : α) : Py (List (List α)) :=
+  m.mapM (fun r => pySet r j x)
+
 /-- `np.floor(x)` as an integer -/
 def npFloor (x : Rat) : Int := x.floor
 
